@@ -64,6 +64,17 @@ pub fn programs(tier: Tier) -> ProgramSet {
                     }));
                 }
             }
+            // `default` belongs to EnumString: the catch-all variant is iterated like any other, with a Default payload
+            for i in 0..n {
+                devs.push(dev(format!("v{}.default(tuple String)", i), &[&format!("kind{}", i)], move |s| {
+                    if s.variants.iter().any(|v| v.default) {
+                        return false;
+                    }
+                    s.variants[i].default = true;
+                    s.variants[i].kind = Kind::Tuple(vec![FieldTy::Str]);
+                    true
+                }));
+            }
             // a DISABLED variant may carry a payload that has no Default at all (it is never constructed)
             for i in 0..n {
                 devs.push(dev(format!("v{}(disabled).kind=tuple(Nd, &'static Nd) without Default", i), &[&format!("kind{}", i)], move |s| {
@@ -185,6 +196,7 @@ pub fn render(spec: &EnumSpec) -> String {
     o.push_str(&format!("type EC = {}{};\n", spec.name, spec.generics_inst()));
     o.push_str(&render_dw_helpers(spec, "u8"));
     o.push_str(&render_vidx(spec, "EC", "vidx"));
+    o.push_str("#[allow(dead_code)]\nfn _generic_walk<E: strum::IntoEnumIterator>() -> usize { let mut it = E::iter(); let _ = it.next_back(); E::iter().rev().count() + it.len() }\n#[allow(dead_code)]\nfn _generic_walk_used() -> usize { _generic_walk::<EC>() }\n");
     o.push_str(
         r#"pub fn run(ctx: &mut vf_core::Ctx) {
     use strum::IntoEnumIterator;
